@@ -789,6 +789,9 @@ func (kvsm *kvStoreSM) ApplyRaftRequest(isReplaying bool, batch IBatchOperator, 
 				//
 				if !isReplaying && reqList.Type == FromClusterSyncer && !IsSyncerOnly() {
 					// syncer only no need check conflict since it will be no write from redis api
+					// the check reads the committed data: a write of the same key may still be waiting
+					// in the batch, and which entries share a batch differs between replicas
+					batch.CommitBatch()
 					conflict := kvsm.preCheckConflict(cmd, reqTs)
 					if conflict == Conflict {
 						kvsm.Infof("conflict sync: %v, %v, %v", string(cmd.Raw), req.String(), reqTs)
